@@ -64,6 +64,11 @@ def iofault(cq, ct):
             T: ["iofault", "--cases", str(ct), "--size", "30", "--shards", "12"], "seeds_t": 3}
 
 
+def cwprog(cq, ct):
+    return {"name": "S-crypto:CryptoWriter write/flush programs around the chunk size: frames vs CW.chunksProg, tamper probes on the raw stream",
+            Q: ["cwprog", "--cases", str(cq)], T: ["cwprog", "--cases", str(ct)], "seeds_t": 4}
+
+
 def encfiles(cq, ct):
     return {"name": "S-crypto:mutated encrypted files", Q: ["encfiles", "--cases", str(cq), "--shards", "8"],
             T: ["encfiles", "--cases", str(ct), "--size", "30", "--shards", "12"], "seeds_t": 3}
@@ -71,6 +76,11 @@ def encfiles(cq, ct):
 
 def abiconn(cq, ct):
     return {"name": "S-abi:connection analysis on run-time definition families", Q: ["abiconn", "--cases", str(cq)], T: ["abiconn", "--cases", str(ct)], "seeds_t": 4}
+
+
+def plugin(cq, ct):
+    return {"name": "S-plugin:the same calls with the implementation in a separately linked shared library (load_shared_library), load failures, repeated and concurrent loads",
+            Q: ["plugin", "--cases", str(cq)], T: ["plugin", "--cases", str(ct)], "seeds_t": 3}
 
 
 def abicall(cq, ct):
@@ -94,7 +104,7 @@ def abiconc(cq, ct):
 
 
 def extras(cq, ct):
-    return {"name": "S-extras:library types outside the model (BitVec, BitSet, PathBuf, Range): direct oracles", Q: ["extras", "--cases", str(cq)], T: ["extras", "--cases", str(ct)], "seeds_t": 3}
+    return {"name": "S-extras:library types outside the model (BitVec, BitSet, PathBuf, Range): direct oracles", Q: ["extras", "--cases", str(cq)], T: ["extras", "--cases", str(ct)], "seeds_t": 2}
 
 
 PROPS = {
@@ -126,25 +136,25 @@ PROPS = {
     "C09": {
         "module": "Sfv.Props.C09",
         "tables": [],
-        "suites": [abivals(40, 300), abicall(4, 20)],
+        "suites": [abivals(40, 300), abicall(4, 20), plugin(3, 12)],
         "oracle": ["C09"],
     },
     "C16": {
         "module": "Sfv.Props.C16",
         "tables": [],
-        "suites": [abiconc(24, 200), abivals(10, 40)],
+        "suites": [abiconc(24, 200), abivals(10, 40), plugin(1, 4)],
         "oracle": ["C16"],
     },
     "C11": {
         "module": "Sfv.Props.C11",
         "tables": [],
-        "suites": [smem(4, 20), schemas(3, 12), abiconn(1500, 6000), abicall(4, 20)],
+        "suites": [smem(4, 20), schemas(3, 12), abiconn(1500, 6000), abicall(4, 20), plugin(2, 8)],
         "oracle": ["C11"],
     },
     "C10": {
         "module": "Sfv.Props.C10",
         "tables": [],
-        "suites": [abiconn(1500, 6000), abicall(4, 20)],
+        "suites": [abiconn(1500, 6000), abicall(4, 20), plugin(3, 12)],
         "oracle": ["C10", "C09"],
     },
     "C15": {
@@ -156,7 +166,7 @@ PROPS = {
     "C14": {
         "module": "Sfv.Props.C14",
         "tables": [],
-        "suites": [encfiles(1, 5)],
+        "suites": [encfiles(1, 5), cwprog(150, 1500)],
         "oracle": ["C14"],
     },
     "C08": {
@@ -198,7 +208,7 @@ PROPS = {
     "C06": {
         "module": "Sfv.Props.C06",
         "tables": ["tables_limits", "tables_prim_packed"],
-        "suites": [malformed(6, 30), PACKED, schemas(2, 10), extras(8, 40)],
+        "suites": [malformed(6, 30), PACKED, schemas(2, 10), extras(4, 30)],
         "oracle": ["C06"],
     },
     "C07": {
